@@ -11,6 +11,10 @@ protocol version / credential class, anchored on golden artefacts).
        independent parser + `cryptography` verify primitives) walks the real bytes along the automaton and logs one event
        per step; every enumerated substitution is spliced on the real bytes and decided by the twin
  TV  : DatTrace - TLC recomputes every offset / length / coverage / verdict and rejects a trace that is not a behaviour of the R-spec
+ lane "slots": the RoT key set is a LIST of slots - for every partition of the 1..4 slots into groups holding the same key (DatLayout.Patterns,
+       enumerated by DatGen) x the way a repeated slot names its key (the same path again / another file with the same key) x each used index,
+       on every credential class: the credential must carry one table entry per SLOT (DatTerms.RotHashTerm), name the configured slot, and its
+       RoT hash must be the hashlib reference over the per-slot fixed-width key material = what the image tools compute for the same list
  lane "cred" (c15_cred.py, DatCredGen): histories of ONE credential object - sign, export, set a signed field, sign again, export again,
        parse - on every credential class; every exported credential must verify under the RoT key over exactly the bytes in front of the
        signature and carry / parse back to the CURRENT field values (object model in DatTerms, decided step by step in DatTrace)
@@ -107,7 +111,7 @@ class Host:
         cfg = {
             "uuid": cred["uuid"].hex(),
             "cc_socu": cred["socu"], "cc_vu": hex(cred["vu"]), "cc_beacon": cred["beacon"],
-            "rot_meta": [kp(k, self.ks, "pub") for k in cred["rot"]],
+            "rot_meta": list(cred.get("paths") or [kp(k, self.ks, "pub") for k in cred["rot"]]),
             "rot_id": cred["used"],
             "rotk": kp(cred["rot"][cred["used"]], self.ks, "pem"),
             "dck": kp(cred["dck"], self.ks, "pub"),
@@ -145,7 +149,7 @@ class Host:
         cfg = {"family": self.fam["family"], "revision": self.fam["revision"], "certificate": path, "beacon": beacon}
         if self.sc["case"]["cls"] == "ele2":  # the response is a signed message: SRK table + debug key as the signing key of the container
             cfg.update({"srk_set": "oem", "used_srk_id": self.sc["case"]["used"], "srk_revoke_mask": 0,
-                        "srk_table": {"flag_ca": False, "srk_array": [kp(k, self.ks, "pub") for k in key_names(self.sc)[0]]},
+                        "srk_table": {"flag_ca": False, "srk_array": slot_paths(self.sc)},
                         "signing_key": kp(dck_name, self.ks, "pem"), "output": os.path.join(scratch(), f"c15-{os.getpid()}-{self.sc['id']}.dar")})
         else:
             cfg["dck_private_key"] = kp(dck_name, self.ks, "pem")
@@ -193,17 +197,23 @@ class Host:
         return DebugAuthenticationChallenge(version=ProtocolVersion(f"{self.ver[0]}.{self.ver[1]}"), socc=self.fam["socc"], uuid=data[8:24], rotid_rkh_revocation=rev,
                                             rotid_rkth_hash=data[28:28 + hl], cc_soc_pinned=pinned, cc_soc_default=default, cc_vu=vu, challenge=data[40 + hl:72 + hl])
 
-    def tools_hash(self, rot_names):
+    def tools_hash(self, paths):
+        """The RoT hash calculator of the family over the same list of key files (one per slot)."""
         from spsdk.utils.crypto.rot import Rot
 
-        return Rot(self.fam["family"], self.fam["revision"], [kp(k, self.ks, "pub") for k in rot_names]).calculate_hash()
+        return Rot(self.fam["family"], self.fam["revision"], list(paths)).calculate_hash()
 
-    def tools2_hash(self, rot_names, used):
-        """Second image-tool path: the certificate block v2.1 (MBI / SB3.1 / `nxpimage cert-block`) built over the same key files."""
+    def tools2_hash(self, paths, used):
+        """Second image-tool path: the certificate block v2.1 (MBI / SB3.1 / `nxpimage cert-block`) built over the same key files
+        (a path named in several slots gives the SAME key object in those slots, another file with the same key a new object)."""
         from spsdk.crypto.utils import extract_public_key
         from spsdk.utils.crypto.cert_blocks import CertBlockV21
 
-        cb = CertBlockV21(root_certs=[extract_public_key(kp(k, self.ks, "pub")) for k in rot_names], ca_flag=True, used_root_cert=used)
+        objs = {}
+        for p_ in paths:
+            if p_ not in objs:
+                objs[p_] = extract_public_key(p_)
+        cb = CertBlockV21(root_certs=[objs[p_] for p_ in paths], ca_flag=True, used_root_cert=used)
         cb.calculate()
         return cb.rkth
 
@@ -265,13 +275,17 @@ class RefHost:
 
     def create_dc(self, cred):
         meta = RefHost._Meta()
-        meta.pubs, meta.used, meta.ele = [D.load_pub(kp(k, self.ks, "pub")) for k in cred["rot"]], cred["used"], self.ele
+        paths, used = list(cred.get("paths") or [kp(k, self.ks, "pub") for k in cred["rot"]]), cred["used"]
+        if self.sc.get("refhost") == "read-once":   # the defect class of the slots lane: every key FILE is read once, the table is built over what was read
+            uniq = [p_ for i, p_ in enumerate(paths) if p_ not in paths[:i]]
+            paths, used = uniq, uniq.index(paths[used])
+        meta.pubs, meta.used, meta.ele = [D.load_pub(p_) for p_ in paths], used, self.ele
         if not (self.ver[0] == 1 and not self.ele):
-            meta.flags = RefHost._Flags(len(meta.pubs), cred["used"])
+            meta.flags = RefHost._Flags(len(meta.pubs), used)
         else:
             meta.rot_items = meta.pubs
         dc = RefHost.DC(RefHost._V(self.ver), self.fam["socc"], cred["uuid"], meta, D.load_pub(kp(cred["dck"], self.ks, "pub")), cred["socu"], cred["vu"], cred["beacon"],
-                        meta.pubs[cred["used"]], D.load_priv(kp(cred["rot"][cred["used"]], self.ks, "pem")))
+                        meta.pubs[used], D.load_priv(kp(cred["rot"][cred["used"]], self.ks, "pem")))
         dc.sign()
         self.made = dc
         return dc, dc.export()
@@ -288,11 +302,11 @@ class RefHost:
         self.dar_obj = RefHost.DAR(self.fam["family"], dc_obj, beacon, dac, (D.load_priv(kp(dck_name, self.ks, "pem")), self.ver[0] == 2, D.scheme_for(pub, self.ele)))
         return self.dar_obj.export()
 
-    def tools_hash(self, rot_names):
-        return hashlib_ref(list(self.ver), [D.load_pub(kp(k, self.ks, "pub")) for k in rot_names], self.ele)
+    def tools_hash(self, paths):
+        return hashlib_ref(list(self.ver), [D.load_pub(p_) for p_ in paths], self.ele)
 
-    def tools2_hash(self, rot_names, used):
-        return self.tools_hash(rot_names)
+    def tools2_hash(self, paths, used):
+        return self.tools_hash(paths)
 
     def hist_begin(self):
         self.h_dar = None
@@ -308,7 +322,7 @@ def key_names(sc):
     """Key files of a scenario: RoT keys srk0.. and the debug key dck of the key set, with the key the case names (lz: the used RoT key,
     another RoT key, the debug key) replaced by the key of the pool whose X / Y coordinate starts with a zero byte."""
     case = sc["case"]
-    rot, dck = [f"srk{i}" for i in range(case["nkeys"])], "dck"
+    rot, dck = [f"srk{k}" for k in pattern(case)], "dck"    # slot i holds key number pat[i] of the pool
     lz = case.get("lz", "none")
     if lz == "used":
         rot[case["used"]] = "lz" + case["coord"]
@@ -317,6 +331,44 @@ def key_names(sc):
     elif lz == "other":
         rot[rng(PROP, "lzpos", sc["id"]).choice([i for i in range(case["nkeys"]) if i != case["used"]])] = "lz" + case["coord"]
     return rot, dck
+
+
+def pattern(case):
+    """Which slots of the RoT key list hold the same key (DatLayout.Patterns): slot i holds key number pat[i]; default: all different."""
+    return list(case.get("pat") or range(case["nkeys"]))
+
+
+def slot_copy(name, ks, slot):
+    """Another FILE (another path) with the key `name`: a copy of its public-key file, made for slot `slot`."""
+    d = os.path.join(scratch(), "c15-slots")
+    path = os.path.join(d, f"{name}_{ks}.slot{slot}.pub")
+    if not os.path.exists(path):
+        os.makedirs(d, exist_ok=True)
+        tmp = f"{path}.{os.getpid()}.tmp"
+        with open(kp(name, ks, "pub"), "rb") as src, open(tmp, "wb") as dst:
+            dst.write(src.read())
+        os.replace(tmp, path)
+    return path
+
+
+def slot_paths(sc):
+    """The key file every slot of the RoT key list names.  A slot that repeats the key of an earlier slot names it the way the case says
+    (DatLayout.Givens): 'path' - the very same path again, 'copy' - another file holding the same key."""
+    case = sc["case"]
+    ks = KEYSET[tuple(case["ver"])]
+    given = case.get("given", "-")
+    out, seen = [], set()
+    for j, k in enumerate(key_names(sc)[0]):
+        out.append(slot_copy(k, ks, j) if (k in seen and given == "copy") else kp(k, ks, "pub"))
+        seen.add(k)
+    return out
+
+
+def key_print(pub):
+    """Fingerprint of a public key (for equality patterns only)."""
+    import hashlib
+
+    return hashlib.sha256(pub.kind.encode() + pub.blob()).hexdigest()[:16]
 
 
 def shape(pub):
@@ -330,9 +382,12 @@ def shape(pub):
 def case_event(sc, ks):
     case = sc["case"]
     rot, dck = key_names(sc)
+    paths = slot_paths(sc)
+    pubs = [D.load_pub(p_) for p_ in paths]
     return {"e": "Case", "lane": sc.get("lane", "main"), "cls": case["cls"], "ver": list(case["ver"]), "nkeys": case["nkeys"], "used": case["used"], "wild": case["wild"], "sha256": sc["fam"]["sha256"],
-            "lz": case.get("lz", "none"), "coord": case.get("coord", "-"),
-            "shapes": {"rot": [shape(D.load_pub(kp(k, ks, "pub"))) for k in rot], "dck": shape(D.load_pub(kp(dck, ks, "pub")))}, "skip": []}
+            "lz": case.get("lz", "none"), "coord": case.get("coord", "-"), "pat": pattern(case), "given": case.get("given", "-"),
+            "slots": {"keys": [key_print(p_) for p_ in pubs], "paths": [os.path.relpath(p_, ROOT) if p_.startswith(ROOT + os.sep) else p_ for p_ in paths]},
+            "shapes": {"rot": [shape(p_) for p_ in pubs], "dck": shape(D.load_pub(kp(dck, ks, "pub")))}, "skip": []}
 
 
 def beacon_name(value, beacons):
@@ -410,7 +465,8 @@ def _run_scenario_ele2(sc):
         u1 = bytes(8) + u1[8:]
     uuid = bytes(16) if case["wild"] else u1
     socu = r.getrandbits(32)
-    pubs = [D.load_pub(kp(k, ks, "pub")) for k in rot]
+    paths = slot_paths(sc)
+    pubs = [D.load_pub(p_) for p_ in paths]
     dck_ref = D.load_pub(kp(dck, ks, "pub"))
     cfg = {"family": fam["family"], "revision": fam["revision"], "cc_socu": hex(socu), "uuid": "0x" + uuid.hex(), "fuse_version": 0,
            "public_key_0": kp(dck, ks, "pub"), "signing_key_0": kp(rot[used], ks, "pem")}
@@ -487,17 +543,17 @@ def _run_scenario_ele2(sc):
     ev.append({"e": "DarFields", "dcEq": m["cert"] == dcb, "beacon": limbs(m["beacon"]), "beaconIn": limbs(beacon), "chalOk": m["challenge"] == ch1,
                "msgUuid": m["msg_uuid"].hex(), "usedOk": m["used"] == used})
     try:
-        tools = host.tools_hash(rot).hex() if sc["tools"] else "n/a"
+        tools = host.tools_hash(paths).hex() if sc["tools"] else "n/a"
     except Exception as e:  # noqa: BLE001
         tools = "raise:" + exc_name(e)
     ev.append({"e": "CheckRotHash", "fromBytes": hashlib.sha512(m["table_raw"]).hexdigest() if m["srk_data_ok"] and m["rot_pub"] == pubs[used] else "srk-data-mismatch",
-               "ref": fuses.hex(), "dc": "n/a", "dc2": "n/a", "tools": tools, "tools2": "n/a"})
+               "ref": fuses.hex(), "dc": "n/a", "dc2": "n/a", "tools": tools, "tools2": "n/a", "entries": [rc["digest"].hex()[:16] for rc in m["recs"]]})
     ok = D.verify(dck_ref, m["sig"], m["signed"], scheme)
     ev.append({"e": "CheckResponseSignature", "from": 0, "to": len(m["signed"]), "sigAt": m["sig_at"] + 8, "sigLen": len(m["sig"]), "key": "dck", "scheme": scheme, "ok": ok})
     dev = D.Device2(u1, fam["socc"], fuses)
     verdict, detail = dev.verdict(dar, ch1)
     ev.append({"e": "Deliver", "verdict": verdict, "detail": detail[:100]})
-    if not ok:
+    if not ok or sc.get("lane") == "slots":     # lane "slots": the fixed part only
         return done()
 
     # ---- histories of the honest host: every answer is bound to ITS challenge and beacon, whatever the host re-uses
@@ -548,14 +604,16 @@ def _run_scenario(sc):
     beacons = {"b1": b1, "b2": (b1 ^ (1 << r.randrange(16))) or 1}
     rot, dck = key_names(sc)
     socu = r.getrandbits(32)
-    credA = {"uuid": bytes(16) if case["wild"] else uu["d1"], "socu": socu, "vu": r.getrandbits(32), "beacon": r.randrange(1 << 16), "rot": rot, "used": used, "dck": dck}
+    paths = slot_paths(sc)
+    credA = {"uuid": bytes(16) if case["wild"] else uu["d1"], "socu": socu, "vu": r.getrandbits(32), "beacon": r.randrange(1 << 16), "rot": rot, "used": used, "dck": dck,
+             "paths": paths}
     creds = {
         "cA": credA,
         "cB": dict(credA, socu=(socu ^ (1 << r.randrange(32)))),                                  # same keys, other rights
         "cI": dict(credA, uuid=uu["d2"], dck="intr", vu=r.getrandbits(32)),                         # genuine, for the intruder's device, his key
-        "cE": dict(credA, uuid=bytes(16), dck="intr", rot=(["evil"] + rot[1:]) if ele else ["evil"], used=0),  # self-made
+        "cE": dict(credA, uuid=bytes(16), dck="intr", rot=(["evil"] + rot[1:]) if ele else ["evil"], used=0, paths=None),  # self-made
     }
-    pubs = [D.load_pub(kp(k, ks, "pub")) for k in rot]
+    pubs = [D.load_pub(p_) for p_ in paths]         # the twin reads the key of every slot from the file that slot names
 
     # ---- Create (SPSDK): configuration -> object -> sign -> export
     try:
@@ -604,7 +662,7 @@ def _run_scenario(sc):
         dc_hash = "raise:" + exc_name(e)
     if sc["tools"]:
         try:
-            tools = host.tools_hash(rot).hex()
+            tools = host.tools_hash(paths).hex()
         except Exception as e:  # noqa: BLE001
             tools = "raise:" + exc_name(e)
     else:
@@ -612,7 +670,7 @@ def _run_scenario(sc):
     tools2 = "n/a"
     if sc["tools"] and fam["rot_type"] == "cert_block_21" and not ele:
         try:
-            tools2 = host.tools2_hash(rot, used).hex()
+            tools2 = host.tools2_hash(paths, used).hex()
         except Exception as e:  # noqa: BLE001
             tools2 = "raise:" + exc_name(e)
     dc2 = "n/a"     # ... and what the credential read back from its bytes reports (`nxpdebugmbox dat dc` inspection, `dat auth`)
@@ -621,7 +679,10 @@ def _run_scenario(sc):
             dc2 = p.calculate_hash().hex()
         except Exception as e:  # noqa: BLE001
             dc2 = "raise:" + exc_name(e)
-    ev.append({"e": "CheckRotHash", "fromBytes": fuses.hex(), "ref": ref.hex(), "dc": dc_hash, "dc2": dc2, "tools": tools, "tools2": tools2})
+    ev.append({"e": "CheckRotHash", "fromBytes": fuses.hex(), "ref": ref.hex(), "dc": dc_hash, "dc2": dc2, "tools": tools, "tools2": tools2,
+               "entries": D.slot_entries(dc, ele)})
+    if sc.get("lane") == "slots":       # lane "slots": the fixed part up to the root-of-trust hash
+        return done()
 
     # ---- the device's challenge, read by the host
     hl = 32 if (ele or fam["sha256"] or ver[0] == 1) else {0: 32, 1: 48, 2: 64}[ver[1]]
@@ -940,6 +1001,80 @@ def socc_is_safe(fam, fams):
     return len({(f["ele"], f["cnt"]) for f in same}) == 1 and all(f["cnt"] == fam["cnt"] for f in same)
 
 
+def plan_slots(slotcases, fams, tier, r, first_id):
+    """Lane "slots": the cases of the space whose RoT key list has slots sharing a key (every partition of the slots x the way a repeated
+    slot names its key x each used index), each executed up to the root-of-trust hash on a family on which the image tools define it.
+    Nothing is drawn: the selection below is a fixed function of the case space; only the family (round robin), the way the configuration
+    names the device and the field values depend on the seed.
+      quick    : device-specific credentials; every case for the ECC key types and RSA-2048; RSA-4096 (same classes as RSA-2048, 0.5 s per
+                 credential): every pattern once, used index and way of naming rotating
+      thorough : all of them, wildcard credentials too (RSA-4096 wildcard: every pattern once)"""
+    quick = tier == "quick"
+    by_cls = {"classic": [f for f in fams if not f["ele"]], "ele1": [f for f in fams if f["ele"] and f["cnt"] == 1],
+              "ele2": [f for f in fams if f["ele"] and f["cnt"] == 2]}
+    scs = []
+    for cell in sorted({(c["cls"], tuple(c["ver"])) for c in slotcases}):
+        cls, ver = cell
+        mine = sorted((c for c in slotcases if (c["cls"], tuple(c["ver"])) == cell), key=lambda c: (c["wild"], c["nkeys"], c["pat"], c["given"], c["used"]))
+        pats = sorted({tuple(c["pat"]) for c in mine})
+        sel = []
+        for c in mine:
+            k = pats.index(tuple(c["pat"]))
+            once = c["used"] == k % c["nkeys"] and c["given"] == ("path", "copy")[(k // 2) % 2]     # every pattern once: index and naming rotate
+            if quick:
+                take = not c["wild"] and (ver != (1, 1) or once)
+            else:
+                take = ver != (1, 1) or not c["wild"] or once
+            if take:
+                sel.append(c)
+        pool = by_cls[cls]
+        indom = [f for f in pool if tools_apply(f, cls, ver)] or pool
+        if not indom:
+            raise Machinery(f"no DAT family for credential class {cls}")
+        order = r.sample(indom, k=len(indom))
+        for i, case in enumerate(sel):
+            fam = order[i % len(order)]
+            sc = {"lane": "slots", "id": first_id + len(scs), "case": case, "fam": fam, "attempts": [], "histories": [], "tools": tools_apply(fam, cls, ver),
+                  "via": r.choice(["yaml-family", "yaml-family", "yaml-revision", "yaml-socc"]), "explicit_version": r.random() < 0.5,
+                  "dar_via": "config", "dc_for_dar": "created", "flips": 1}
+            if sc["via"] == "yaml-socc" and not socc_is_safe(fam, fams):
+                sc["via"] = "yaml-family"
+            scs.append(sc)
+    return scs
+
+
+def account_slots(v, straces, slotcases):
+    """Counting for lane "slots" (decides nothing) -> (statistics, list of gaps: patterns of a cell for which the root-of-trust hash was
+    never evaluated - on the image side too where it defines one)"""
+    stats = {"scenarios": len(straces), "created": 0, "rot_hash_compared_with_image_tools": 0, "refused": {}, "by_given": {}, "by_class": {}}
+    seen = set()
+    for t in straces:
+        sc, c = t["sc"], t["sc"]["case"]
+        v.count(1)
+        v.nontrivial(("slots", sc["fam"]["fclass"], c["cls"], tuple(c["ver"]), tuple(c["pat"]), c["used"], c["given"], c["wild"]))
+        for e in t["ev"]:
+            if e["e"] in ("Create", "Respond") and not e["ok"]:
+                k = f"{c['cls']}/{c['ver'][0]}.{c['ver'][1]}/{e['e']}/{e['exc']}"
+                stats["refused"][k] = stats["refused"].get(k, 0) + 1
+            if e["e"] == "Create" and e["ok"]:
+                stats["created"] += 1
+            if e["e"] == "CheckRotHash":
+                stats["by_given"][c["given"]] = stats["by_given"].get(c["given"], 0) + 1
+                ck = f"{c['cls']}/{c['ver'][0]}.{c['ver'][1]}"
+                stats["by_class"][ck] = stats["by_class"].get(ck, 0) + 1
+                seen.add((c["cls"], tuple(c["ver"]), tuple(c["pat"]), False))
+                if e["tools"] != "n/a":
+                    stats["rot_hash_compared_with_image_tools"] += 1
+                    seen.add((c["cls"], tuple(c["ver"]), tuple(c["pat"]), True))
+    gaps = []
+    for c in slotcases:
+        cell = (c["cls"], tuple(c["ver"]), tuple(c["pat"]))
+        need_tools = tuple(c["ver"]) != (2, 2) or c["cls"] != "classic"       # no certificate block takes P-521 keys (DatLayout.RotHashDefined)
+        if cell + (need_tools,) not in seen and cell not in gaps:
+            gaps.append(cell)
+    return stats, gaps
+
+
 # ------------------------------------------------------------------ verdicts
 def finding_key(t, matched):
     sc = t["sc"]
@@ -950,6 +1085,8 @@ def finding_key(t, matched):
     detail = ""
     if str(e).startswith("Cred"):
         detail = C.finding_detail(t, matched)
+    elif e == "Create" and ev.get("ok"):
+        detail = f"{nk}/length"
     elif "exc" in ev:
         detail = f"{nk}/exc={ev['exc']}"
     elif "err" in ev:
@@ -975,11 +1112,12 @@ def finding_key(t, matched):
         if "uuid" in diff and any(exp.get("uuid", [])) and not any(exp["uuid"][:8]):
             detail += "/uuid<2^64"
     elif e == "DcKeys":
-        detail = "+".join(k for k, bad in (("rot-key", ev["rotIdx"] != sc["case"]["used"]), ("dck", not ev["dckOk"]), ("table", not ev["tableOk"])) if bad)
+        pat = pattern(sc["case"])
+        detail = "+".join(k for k, bad in (("rot-key", ev["rotIdx"] != pat.index(pat[sc["case"]["used"]])), ("dck", not ev["dckOk"]), ("table", not ev["tableOk"])) if bad)
     elif e == "CheckDcSignature":
         detail = "not-verified" if not ev["ok"] else f"range={ev['from']}..{ev['to']}"
     elif e == "CheckRotHash":
-        detail = "+".join(k for k in ("fromBytes", "dc", "dc2", "tools", "tools2") if ev.get(k, "n/a") != ev["ref"] and ev.get(k, "n/a") != "n/a")
+        detail = "+".join(k for k in ("fromBytes", "dc", "dc2", "tools", "tools2") if ev.get(k, "n/a") != ev["ref"] and ev.get(k, "n/a") != "n/a") or "entries"
         if ev["dc"].startswith("raise:"):
             detail += "/" + ev["dc"]
     elif e == "Dac":
@@ -1002,7 +1140,8 @@ def finding_key(t, matched):
         detail = f"{ev['part']}.{ev['field']}/{ev['verdict']}"
     elif e == "Deliver":
         detail = ev["verdict"]
-    return f"C15/{ver}/{sc['fam']['fclass']}/{e}" + (f"/{detail}" if detail else "")
+    lane = f"/slots={sc['case'].get('given', '-')}" if sc.get("lane") == "slots" else ""     # RoT key list with slots sharing a key, named the given way
+    return f"C15/{ver}/{sc['fam']['fclass']}{lane}/{e}" + (f"/{detail}" if detail else "")
 
 
 def history_detail(ev, wild, binds=False):
@@ -1134,15 +1273,60 @@ def canary(credhists):
     mutate("bad-tools2", lambda m, evs: m["CheckRotHash"].update(tools2="11" + m["CheckRotHash"]["tools2"][2:] if not m["CheckRotHash"]["tools2"].startswith("11")
                                                                  else "00" + m["CheckRotHash"]["tools2"][2:]))
     cgood, cbad, cat = C.canary_traces(credhists)
-    rej, _ = tlc.tv("C15", "DatTrace", [g] + more + cgood + bad + cbad)
-    want = {b["id"] for b in bad + cbad}
+    sgood, sbad, sat = canary_slots()
+    rej, _ = tlc.tv("C15", "DatTrace", [g] + more + cgood + sgood + bad + cbad + sbad)
+    want = {b["id"] for b in bad + cbad + sbad}
     if set(rej) != want:
         raise Machinery(f"canary failed: rejected {sorted(rej)}, expected exactly {sorted(want)}")
-    wrong = {k: rej[k][2] for k, name in cat.items() if rej[k][2] != name}
+    wrong = {k: rej[k][2] for k, name in list(cat.items()) + list(sat.items()) if rej[k][2] != name}
     if wrong:
-        raise Machinery(f"canary failed: credential-object traces rejected at another step than the corrupted one: {wrong}")
-    return (f"{1 + len(more)} traces of the reference host and {len(cgood)} traces of the reference credential object accepted, {len(bad) + len(cbad)} corruptions "
-            f"rejected ({', '.join(sorted(want))})")
+        raise Machinery(f"canary failed: credential-object / slot-list traces rejected at another step than the corrupted one: {wrong}")
+    return (f"{1 + len(more)} traces of the reference host, {len(cgood)} traces of the reference credential object and {len(sgood)} traces of the reference host "
+            f"with RoT slots sharing a key accepted, {len(bad) + len(cbad) + len(sbad)} corruptions rejected ({', '.join(sorted(want))})")
+
+
+def canary_slots():
+    """Lane "slots": -> (good traces, bad traces, {id of a bad trace: event it must be rejected at}).  The good ones come from the
+    reference host (the twin's own tools, made-up families) for RoT key lists with slots sharing a key; the bad ones are single-field
+    corruptions of the first, plus the trace of a reference host that reads every key FILE once and builds its table over what it has
+    read (the defect class the lane exists for)."""
+    def scenario(k, cls, ver, pat, used, given, fclass, refhost=True):
+        case = {"kind": "case", "cls": cls, "ver": ver, "nkeys": len(pat), "used": used, "wild": k % 2 == 1, "lz": "none", "coord": "-", "pat": pat, "given": given}
+        return {"lane": "slots", "id": 999800 + k, "case": case, "fam": C.CANARY_FAM[fclass], "attempts": [], "histories": [], "tools": True, "via": "yaml-family",
+                "explicit_version": False, "dar_via": "create", "dc_for_dar": "created", "refhost": refhost}
+
+    cells = [("classic", [2, 0], [0, 1, 0], 2, "path", "cb21"), ("ele1", [2, 1], [0, 0, 1, 1], 3, "copy", "ele1"), ("classic", [1, 0], [0, 0, 0, 0], 2, "path", "cb1"),
+             ("classic", [2, 1], [0, 0], 1, "copy", "cb21-sha256"), ("classic", [2, 0], [0, 1, 1, 2], 2, "copy", "cb21"), ("classic", [1, 0], [0, 1, 0], 0, "copy", "cb1")]
+    good = []
+    for k, cell in enumerate(cells):
+        t = run_scenario(scenario(k, *cell))
+        if t.get("harness_error") or [e["e"] for e in t["ev"][-2:]] != ["CheckRotHash", "Done"]:
+            raise Machinery(f"canary: reference host failed for the slot list {cell}: {t.get('harness_error') or json.dumps(t['ev'][-3:])[:400]}")
+        good.append({"id": f"good-slots-{cell[0]}-{cell[1][0]}.{cell[1][1]}-{''.join(map(str, cell[2]))}-{cell[4]}", "ev": t["ev"]})
+    g = good[0]
+    bad, at = [], {}
+
+    def mutate(name, where, fn):
+        b = json.loads(json.dumps(g))
+        b["id"] = name
+        fn({e["e"]: e for e in b["ev"]})
+        bad.append(b)
+        at[name] = where
+
+    mutate("bad-slots-entries", "CheckRotHash", lambda m: m["CheckRotHash"]["entries"].__setitem__(2, "00" + m["CheckRotHash"]["entries"][1][2:]))  # slots 1 and 3 no longer equal
+    mutate("bad-slots-entry-missing", "CheckRotHash", lambda m: m["CheckRotHash"]["entries"].pop())
+    mutate("bad-slots-rot-key", "DcKeys", lambda m: m["DcKeys"].update(rotIdx=1))                    # the embedded key is the key of another group of slots
+    mutate("bad-slots-files", "Case", lambda m: m["Case"]["slots"]["paths"].__setitem__(2, m["Case"]["slots"]["paths"][2] + ".other"))   # not the same path again
+    mutate("bad-slots-keys", "Case", lambda m: m["Case"]["slots"]["keys"].__setitem__(2, m["Case"]["slots"]["keys"][1]))               # not the key list of the case
+    mutate("bad-slots-pattern", "Case", lambda m: m["Case"].update(pat=[0, 2, 0]))                                                      # not a pattern
+    for k, cell in ((50, cells[0]), (51, cells[4]), (52, cells[2])):
+        name = f"bad-slots-read-once-{''.join(map(str, cell[2]))}"
+        t = run_scenario(scenario(k, *(cell[:4] + ("path",) + cell[5:]), refhost="read-once"))
+        if t.get("harness_error"):
+            raise Machinery(f"canary: read-once reference host failed: {t['harness_error']}")
+        bad.append({"id": name, "ev": t["ev"]})
+        at[name] = "Create" if cell[0] != "classic" or cell[1][0] == 2 else "DcFields"    # ECC: another length; RSA: the table always has four entries - the count is off
+    return good, bad, at
 
 
 def run(tier):
@@ -1171,14 +1355,18 @@ def run(tier):
     if len(credhists) != 5268 or cgen.distinct != 14809 or len({C.hkey(h) for h in credhists}) != len(credhists):
         raise Machinery(f"DatCredGen emitted {len(credhists)} histories of one credential object over {cgen.distinct} states")
     items = gen.json_prints()
-    cases = [x for x in items if x["kind"] == "case"]
+    slotcases = [x for x in items if x["kind"] == "case" and x["given"] != "-"]     # RoT key lists with slots sharing a key: lane "slots"
+    cases = [x for x in items if x["kind"] == "case" and x["given"] == "-"]
     attempts = [{k: x for k, x in a.items() if k != "kind"} for a in items if a["kind"] == "attempt"]
     histories = [[{k: s_[k] for k in ("m", "d", "ch", "b")} for s_ in x["h"]] for x in items if x["kind"] == "history"]
     n_plain = len([c for c in cases if c["lz"] == "none"])
-    if n_plain != 164 or len(cases) != 588 or len(attempts) != 2304 or len(histories) != 2040 or gen.distinct != len(items):
-        raise Machinery(f"GEN emitted {len(cases)} cases ({n_plain} plain) / {len(attempts)} attempts / {len(histories)} histories / {gen.distinct} states")
-    say(f"[C15] GEN done {v.timer.s()}s: {len(cases)} cases ({len(cases) - n_plain} with a leading-zero key), {len(attempts)} delivery attempts, {len(histories)} histories, "
-        f"{len(credhists)} histories of one credential object")
+    n_parts = {n: len({tuple(c["pat"]) for c in slotcases if c["nkeys"] == n}) for n in (2, 3, 4)}
+    if (n_plain != 164 or len(cases) != 588 or len(slotcases) != 3192 or n_parts != {2: 1, 3: 4, 4: 14} or len(attempts) != 2304 or len(histories) != 2040
+            or gen.distinct != len(items)):
+        raise Machinery(f"GEN emitted {len(cases)} cases ({n_plain} plain) / {len(slotcases)} cases with slots sharing a key ({n_parts}) / {len(attempts)} attempts / "
+                        f"{len(histories)} histories / {gen.distinct} states")
+    say(f"[C15] GEN done {v.timer.s()}s: {len(cases)} cases ({len(cases) - n_plain} with a leading-zero key), {len(slotcases)} cases with RoT slots sharing a key, "
+        f"{len(attempts)} delivery attempts, {len(histories)} histories, {len(credhists)} histories of one credential object")
     for ks_ in ("ecc256", "ecc384"):   # the key pool has the shapes the case space names
         for nm, want in (("lzx", "x"), ("lzy", "y"), ("srk0", "-"), ("srk1", "-"), ("srk2", "-"), ("srk3", "-"), ("dck", "-")):
             if shape(D.load_pub(kp(nm, ks_, "pub"))) != want:
@@ -1210,13 +1398,16 @@ def run(tier):
         raise Machinery(f"only {len(fams)} DAT families found in the database")
     scs = plan(cases, attempts, fams, tier, r, histories)
     cscs = C.plan(cases, fams, tier, rng(PROP, "cred-plan"), credhists, len(scs))
+    sscs = plan_slots(slotcases, fams, tier, rng(PROP, "slots-plan"), len(scs) + len(cscs))
     say(f"[C15] {len(scs)} scenarios over {len({(s['fam']['family'], s['fam']['revision']) for s in scs})} family revisions; credential-object lane: "
-        f"{len(cscs)} scenarios, {sum(len(s['chists']) for s in cscs)} histories")
-    order = r.sample(scs, k=len(scs))  # spread the expensive (RSA-4096) scenarios over the pool
+        f"{len(cscs)} scenarios, {sum(len(s['chists']) for s in cscs)} histories; slot-list lane: {len(sscs)} scenarios over "
+        f"{len({(s['fam']['family'], s['fam']['revision']) for s in sscs})} family revisions")
+    order = r.sample(scs + sscs, k=len(scs) + len(sscs))  # spread the expensive (RSA-4096) scenarios over the pool
     order = cscs + order               # the long ones first
-    alltr = sorted(pmap(run_scenario, order, chunksize=2), key=lambda t: t["id"])
-    traces = [t for t in alltr if t["sc"].get("lane") != "cred"]
+    alltr = sorted(pmap(run_scenario, order, chunksize=4), key=lambda t: t["id"])
+    traces = [t for t in alltr if t["sc"].get("lane", "main") == "main"]
     ctraces = [t for t in alltr if t["sc"].get("lane") == "cred"]
+    straces = [t for t in alltr if t["sc"].get("lane") == "slots"]
     herr = [t for t in alltr if t.get("harness_error")]
     if herr:
         raise Machinery(f"harness error in scenario {herr[0]['sc']['id']} ({herr[0]['sc']['fam']['family']}, {herr[0]['sc']['case']}): {herr[0]['harness_error']}")
@@ -1296,6 +1487,10 @@ def run(tier):
                    cred_exports_after_resign=dict(sorted(cstats["exports_after_resign"].items())), cred_parses=cstats["parses"],
                    cred_steps_refused=dict(sorted(cstats["refused"].items())))
 
+    # ---- the slot-list lane: what was executed
+    sstats, sgaps = account_slots(v, straces, [s_["case"] for s_ in sscs])
+    v.extra.update(slot_list=sstats)
+
     # ---- canary, then TLC decides every trace
     v.extra["canary"] = canary(credhists)
     say(f"[C15] canary done {v.timer.s()}s")
@@ -1320,7 +1515,12 @@ def run(tier):
         hs = C.histories_of(ct["ev"])
         v.sample({"scenario": ct["sc"]["case"], "family": ct["sc"]["fam"]["family"], "lane": "one credential object",
                   "history": [{k: x for k, x in e.items() if k != "fields"} for e in hs[1][1]] if len(hs) > 1 else []})
-    pending, rounds = traces + ctraces, 0
+    slt = next((t for t in straces if t["sc"]["case"]["cls"] == "classic" and t["sc"]["case"]["ver"][0] == 2 and t["sc"]["case"]["nkeys"] == 3
+                and any(e["e"] == "CheckRotHash" for e in t["ev"])), None)
+    if slt:
+        v.sample({"scenario": slt["sc"]["case"], "family": slt["sc"]["fam"]["family"], "lane": "RoT key list with slots sharing a key",
+                  "events": [e for e in slt["ev"] if e["e"] in ("Case", "Create", "DcKeys", "CheckRotHash")]}, limit=7)
+    pending, rounds = traces + ctraces + straces, 0
     while pending and rounds < 8:
         rej = {}
         rej.update(validate(v, pending))
@@ -1330,6 +1530,10 @@ def run(tier):
         rounds += 1
     v.extra["tv_rounds"] = rounds
     say(f"[C15] TV done {v.timer.s()}s")
+    # non-vacuity of the slot-list lane (after the verdicts: a tree that breaks the lane's clauses is reported, not called a machinery failure)
+    if sgaps and not any("/slots=" in k for k in list(v.violations) + [x["first_key"] for x in v.seen_known.values()]):
+        raise Machinery(f"slot-list lane: the root-of-trust hash was never evaluated (with the image tools where they define one) for {len(sgaps)} "
+                        f"(class, version, pattern) cells, e.g. {sgaps[:3]}; refused = {json.dumps(sstats['refused'])[:500]}")
 
     v.cov["rule"] = (
         f"cases = the 588 abstract credential cases TLC enumerates: 164 plain ones (classic RSA 1.0/1.1, ECC 2.0/2.1/2.2 with 1..4 RoT keys and each used index; "
@@ -1345,9 +1549,15 @@ def run(tier):
         "set between two exports; the parsed object changed and signed; two fields; sign / export twice) and a round-robin share of the 5268 histories of up to six "
         f"operations TLC enumerates ({v.extra['cred_histories']} histories, {v.extra['cred_exports_decided']} exports decided); values of a Set drawn from the classes "
         "random / zero / all ones / one bit away from the current value (SoC class: another one the credential classes treat alike; debug key: another key file); "
-        "distinct = (family class, case), (class, wildcard, attempt), (class, key type, wildcard, history) and (credential class, history of one object)"
+        f"slot-list lane: the {len(slotcases)} cases TLC enumerates in which the RoT key LIST has slots sharing a key - every partition of 2..4 slots into groups "
+        "holding the same key (1 + 4 + 14 patterns) x the way a repeated slot names its key (the very same path again / another file with the same key) x each used "
+        "index x every credential class and key type - executed up to the root-of-trust hash (container version 2: up to the delivered response), on families "
+        f"on which the image tools define the hash, taken round robin: {'device-specific credentials; all cases for the ECC key types and RSA-2048, for RSA-4096 every pattern once (index and naming rotating)' if tier == 'quick' else 'device-specific and wildcard credentials, all cases (RSA-4096 wildcard: every pattern once)'} "
+        f"= {v.extra['slot_list']['scenarios']} scenarios, {v.extra['slot_list']['rot_hash_compared_with_image_tools']} of them with the image tools' value; "
+        "distinct = (family class, case), (class, wildcard, attempt), (class, key type, wildcard, history), (credential class, history of one object) and "
+        "(family class, slot-list case)"
     )
-    v.cov["checker_cmd"] = ("TLC DatGen (cases, attempts, histories of the host, lemmas) ; TLC DatCredGen (histories of one credential object, lemmas) ; "
+    v.cov["checker_cmd"] = ("TLC DatGen (cases incl. slot patterns, attempts, histories of the host, lemmas) ; TLC DatCredGen (histories of one credential object, lemmas) ; "
                             "TLC DatMC (protocol invariants) ; TLC DatTrace (decides every trace)")
     v.cov["trusted_base"] = ["TLC", "cryptography: RSA PKCS#1 v1.5 / PSS verify, ECDSA verify, PEM key loading - called directly", "hashlib (SHA-256/384/512)",
                              "harness/c15_dev.py walkers; layouts anchored on 5 golden credentials + 3 challenges of tests/dat/data (container v2: documentation tables only)"]
@@ -1374,6 +1584,12 @@ def run(tier):
         "that is changed and 'signed' exports a stale signature - observation, not reported); a step SPSDK refuses changes nothing (coverage.cred_steps_refused)",
         "key shapes: leading-zero coordinates are asked for P-256 / P-384 (keys derived once, keys/c15/gen_lz.py); the P-521 keys of the pool have the shape anyway, "
         "an RSA modulus has none; the second image-tool path (certificate block v2.1 over the same key files) exists for the classic ECC credentials only",
+        "RoT key lists with slots sharing a key (lane 'slots'): 'RoT key sets of 1..4 keys' is read as the list of 1..4 key SLOTS the credential, the certificate "
+        "block and the SRK table have - the image tools (the C03 value the credential must agree with) take a list and hash one entry per slot, and the reference "
+        "is hashlib over the fixed-width key material of every slot; a repeated slot names its key by the same path again or by another public-key file with the "
+        "same content (the same key as private-key file / certificate / other encoding is not varied); these lists run with keys without leading-zero coordinates, "
+        "without the response part (container version 2 excepted, where the SRK table travels in the response: every SRK record commits to its slot number, so "
+        "the equality pattern of the table entries is asserted for the other classes only); a list SPSDK refuses creates nothing (coverage.slot_list.refused)",
         "a configuration SPSDK refuses creates nothing and is outside the property (counted in coverage.refused)",
         "RSA versions: the response is not bound to the device UUID by protocol definition (stated in DatTerms, not reported)",
     ]
